@@ -247,17 +247,44 @@ def floordiv_mod(a, b):
     if isinstance(b, (int, bool)) and int(b) > 0:
         return mk_int(at / bt), mk_int(at % bt)
     c = ctx()
+    # the same division occurring twice on a path (body and spec) yields the same q, r
+    key = (z3.simplify(at, som=True).sexpr(), z3.simplify(bt, som=True).sexpr())
+    memo = c.__dict__.setdefault('div_memo', {})
+    if key in memo:
+        return memo[key]
     q = c.fresh_int('q')
     r = c.fresh_int('r')
     c.assume(at == bt * q + r)
     if isinstance(b, (int, bool)):
         c.assume(z3.And(r <= 0, r > bt))
+        positive = False
     else:
-        if c.branch(bt > 0):
+        positive = c.branch(bt > 0)
+        if positive:
             c.assume(z3.And(r >= 0, r < bt))
         else:
             c.assume(z3.And(r <= 0, r > bt))
-    return SInt(q), SInt(r)
+    # linear consequences of the Euclidean axioms that the nonlinear core does not find by itself
+    if positive:
+        c.assume(z3.And(z3.Implies(at >= 0, q >= 0), z3.Implies(at < 0, q < 0),
+                        z3.Implies(at >= bt, q >= 1), z3.Implies(at < bt, q <= 0),
+                        z3.Implies(at >= 0, q <= at), z3.Implies(at >= 0, bt * q <= at)))
+    else:
+        c.assume(z3.And(z3.Implies(at <= 0, q >= 0), z3.Implies(at > 0, q < 0),
+                        z3.Implies(at <= bt, q >= 1), z3.Implies(at > bt, q <= 0)))
+    for (a2, b2, q2, r2) in c.__dict__.setdefault('div_list', []):
+        if b2.eq(bt):
+            c.assume(z3.And(z3.Implies(at == a2, z3.And(q == q2, r == r2)),
+                            z3.Implies(at == bt * q2, z3.And(q == q2, r == 0)),
+                            z3.Implies(a2 == bt * q, z3.And(q == q2, r2 == 0)),
+                            z3.Implies(at == a2 + bt, q == q2 + 1),
+                            z3.Implies(at == a2 - bt, q == q2 - 1)))
+            if positive:
+                c.assume(z3.And(z3.Implies(at <= a2, q <= q2), z3.Implies(at >= a2, q >= q2)))
+    c.div_list.append((at, bt, q, r))
+    res = (SInt(q), SInt(r))
+    memo[key] = res
+    return res
 
 
 class SInt:
